@@ -202,9 +202,15 @@ func c11W1(ctx *core.Ctx, out *core.Out) {
 	// give the readers a moment to see the closing handshake, then cut the transport
 	rdDone := make(chan struct{})
 	go func() { wgR.Wait(); close(rdDone) }()
+	readersEndedNaturally := true
+	wait := 20 * time.Second
+	if cs.Abrupt != 0 {
+		wait = 300 * time.Millisecond
+	}
 	select {
 	case <-rdDone:
-	case <-time.After(300 * time.Millisecond):
+	case <-time.After(wait):
+		readersEndedNaturally = false
 	}
 	a.Close()
 	b.Close()
@@ -302,7 +308,9 @@ func c11W1(ctx *core.Ctx, out *core.Out) {
 			}
 		}
 		out.Count("messages_round_tripped", int64(len(got)))
-		if cs.Abrupt == 0 && side.name == "client" && len(got) != len(side.sent) {
+		if cs.Abrupt == 0 && !readersEndedNaturally {
+			out.Inconcl("readers had not seen the closing handshake 20 s after the writers finished (machine overloaded?)")
+		} else if cs.Abrupt == 0 && side.name == "client" && len(got) != len(side.sent) {
 			fail("message-lost-before-close", fmt.Sprintf("the client sent %d messages and then a close, the server delivered only %d", len(side.sent), len(got)), nil)
 			return
 		}
